@@ -257,10 +257,6 @@ Variable trunc : B -> B.
 Notation empty := (plain []).
 Notation prog := (prog B).
 
-(* [reach p cs a]: some sequence of replies drives p through the calls cs to
-   the result a.  Every interpreter (fault-free, single fault, schedule) ends
-   in a reachable result, so statements about all reachable results hold for
-   every fault position, every errno and every tree. *)
 Fixpoint reach {A} (p : prog A) (cs : list (call B)) (a : A) : Prop :=
   match p with
   | Ret x => cs = [] /\ a = x
@@ -304,8 +300,6 @@ Definition cpath (c : call B) : path :=
   match c with
   | CIsFile p | CExists p | CMakedirs p | CUnlink p | COpen p _ | CWrite p _ | CRead p | CClose p => p
   end.
-Definition nwrites (cs : list (call B)) : nat :=
-  length (filter (fun c => match c with CWrite _ _ => true | _ => false end) cs).
 (* the content last written to a file *)
 Fixpoint last_written (f : path) (cs : list (call B)) : option B :=
   match cs with
@@ -321,151 +315,101 @@ Definition on_shard (d : shard_desc) (cs : list (call B)) : Prop :=
 
 Ltac shard_calls := unfold on_shard; repeat (apply Forall_cons; [right; reflexivity|]); apply Forall_nil.
 
-Lemma idx_reach : forall d fuel j cs r st',
-  reach (idx_writes B plain d j fuel) cs (r, st') ->
-  on_shard d cs /\ (1 <= nwrites cs)%nat /\
-  match r with
-  | COk => st' = {| sh_dirty := false; sh_dead := sd_n d |} /\
-           last_written (sd_file d) cs = Some (plain (complete d))
-  | CIOErr => st' = {| sh_dirty := true; sh_dead := sd_n d |}
-  | CAttrErr => False
-  end.
+Lemma leave_reach : forall f cs r, reach (leave B f) cs r -> cs = [CClose f] /\ r = CIOErr.
+Proof. intros f cs r [r0 [cs0 [-> [-> ->]]]]. auto. Qed.
+
+Lemma idx_reach : forall d fuel j cs r,
+  reach (idx_writes B plain d j fuel) cs r ->
+  on_shard d cs /\ (r = COk -> last_written (sd_file d) cs = Some (plain (complete d))).
 Proof.
-  intros d fuel. induction fuel as [|f IH]; intros j cs r st' H; simpl in H.
-  - destruct H as [r0 [cs0 [-> H]]]. destruct r0 as [b| |x|e]; simpl in H;
-      destruct H as [r1 [cs1 [-> H]]].
-    1-3: (destruct r1 as [b1| |x1|e1]; simpl in H; destruct H as [-> H]; inversion H; subst;
-          (split; [shard_calls|]); (split; [unfold nwrites; simpl; lia|]); try reflexivity;
-          (split; [reflexivity|]); simpl; rewrite path_eqb_refl; reflexivity).
-    destruct r1; simpl in H; destruct H as [-> H]; inversion H; subst;
-      (split; [shard_calls|]; split; [unfold nwrites; simpl; lia | reflexivity]).
-  - destruct H as [r0 [cs0 [-> H]]]. destruct r0 as [b| |x|e]; simpl in H.
-    4:{ destruct H as [r1 [cs1 [-> H]]]. destruct r1; simpl in H; destruct H as [-> H]; inversion H; subst;
-        (split; [shard_calls|]; split; [unfold nwrites; simpl; lia | reflexivity]). }
-    all: (destruct (IH (S j) cs0 r st' H) as [H1 [H2 H3]];
+  intros d fuel. induction fuel as [|f IH]; intros j cs r H; simpl in H.
+  - destruct H as [r0 [cs0 [-> H]]]. destruct r0 as [b| |x|e].
+    4:{ apply leave_reach in H. destruct H as [-> ->]. split; [shard_calls | discriminate]. }
+    all: (destruct H as [r1 [cs1 [-> H]]]; destruct r1 as [b1| |x1|e1]; simpl in H; destruct H as [-> ->];
+          (split; [shard_calls|]); intro E; try discriminate; simpl; rewrite path_eqb_refl; reflexivity).
+  - destruct H as [r0 [cs0 [-> H]]]. destruct r0 as [b| |x|e].
+    4:{ apply leave_reach in H. destruct H as [-> ->]. split; [shard_calls | discriminate]. }
+    all: (destruct (IH (S j) cs0 r H) as [H1 H2];
           split; [constructor; [right; reflexivity | exact H1]|];
-          split; [unfold nwrites in *; simpl; lia|];
-          destruct r; try exact H3; destruct H3 as [H3 H4]; split; [exact H3|]; simpl; rewrite H4; reflexivity).
+          intro E; simpl; rewrite (H2 E); reflexivity).
 Qed.
 
-Lemma data_reach : forall d fuel i cs r st',
-  reach (data_writes B plain d i fuel) cs (r, st') ->
-  on_shard d cs /\ (1 <= nwrites cs)%nat /\
-  match r with
-  | COk => st' = {| sh_dirty := false; sh_dead := sd_n d |} /\
-           last_written (sd_file d) cs = Some (plain (complete d))
-  | CIOErr => sh_dirty st' = true /\
-              ((sh_dead st' = i + nwrites cs - 1 /\ nwrites cs <= fuel)%nat \/
-               (sh_dead st' = sd_n d /\ fuel < nwrites cs)%nat)
-  | CAttrErr => False
-  end.
+Lemma data_reach : forall d fuel i cs r,
+  reach (data_writes B plain d i fuel) cs r ->
+  on_shard d cs /\ (r = COk -> last_written (sd_file d) cs = Some (plain (complete d))).
 Proof.
-  intros d fuel. induction fuel as [|f IH]; intros i cs r st' H; simpl in H.
-  - destruct (idx_reach d _ 0%nat cs r st' H) as [H1 [H2 H3]]. split; [exact H1|]. split; [exact H2|].
-    destruct r; try exact H3. subst st'. split; [reflexivity|]. right. split; [reflexivity | lia].
-  - destruct H as [r0 [cs0 [-> H]]]. destruct r0 as [b| |x|e]; simpl in H.
-    4:{ destruct H as [r1 [cs1 [-> H]]]. destruct r1; simpl in H; destruct H as [-> H]; inversion H; subst;
-        (split; [shard_calls|]; split; [unfold nwrites; simpl; lia|];
-         split; [reflexivity|]; left; unfold nwrites; simpl; split; lia). }
-    all: (destruct (IH (S i) cs0 r st' H) as [H1 [H2 H3]];
+  intros d fuel. induction fuel as [|f IH]; intros i cs r H; simpl in H.
+  - exact (idx_reach d _ 0%nat cs r H).
+  - destruct H as [r0 [cs0 [-> H]]]. destruct r0 as [b| |x|e].
+    4:{ apply leave_reach in H. destruct H as [-> ->]. split; [shard_calls | discriminate]. }
+    all: (destruct (IH (S i) cs0 r H) as [H1 H2];
           split; [constructor; [right; reflexivity | exact H1]|];
-          split; [unfold nwrites in *; simpl; lia|];
-          destruct r; try exact H3;
-          [destruct H3 as [H3 H4]; split; [exact H3|]; simpl; rewrite H4; reflexivity
-          |destruct H3 as [H3 [[H4 H5]|[H4 H5]]]; (split; [exact H3|]); unfold nwrites in *; simpl;
-           [left; split; lia | right; split; [exact H4 | lia]]]).
+          intro E; simpl; rewrite (H2 E); reflexivity).
 Qed.
-
-Definition closed_of (x : shard_desc * shst) : shst :=
-  if sh_dirty (snd x) then {| sh_dirty := false; sh_dead := sd_n (fst x) |} else snd x.
-
-Ltac io_tail dead :=
-  split; [reflexivity|]; split; [reflexivity|];
-  destruct dead; [left; split; [reflexivity|]; unfold nwrites; simpl; rewrite Nat.min_0_r; reflexivity
-                 | right; split; [lia | reflexivity]].
 
 (* Shard.close: everything it can reach *)
-Lemma shard_reach : forall d st cs r st',
-  reach (shard_close_prog B plain d st) cs (r, st') ->
+Lemma shard_reach : forall d dirty cs r,
+  reach (shard_close_prog B plain d dirty) cs r ->
   on_shard d cs /\
   match r with
-  | COk => st' = closed_of (d, st) /\
-           (sh_dirty st = false /\ cs = [] \/
-            sh_dirty st = true /\ sh_dead st = 0%nat /\
-            last_written (sd_file d) cs = Some (plain (complete d)))
-  | CIOErr => sh_dirty st = true /\ sh_dirty st' = true /\
-              ((sh_dead st = 0%nat /\ sh_dead st' = Nat.min (sd_n d) (nwrites cs - 2)) \/
-               ((0 < sh_dead st)%nat /\ st' = st))
-  | CAttrErr => sh_dirty st = true /\ (0 < sh_dead st)%nat /\ st' = st /\
-                last_written (sd_file d) cs = Some (plain (sd_zero d))
+  | COk => dirty = false /\ cs = [] \/
+           dirty = true /\ last_written (sd_file d) cs = Some (plain (complete d))
+  | CIOErr => dirty = true
   end.
 Proof.
-  intros d [dirty dead] cs r st' H. unfold shard_close_prog in H. simpl sh_dirty in *. simpl sh_dead in *.
+  intros d dirty cs r H. unfold shard_close_prog in H.
   destruct dirty; simpl in H.
-  2:{ destruct H as [-> H]. inversion H; subst. split; [constructor|]. split; [reflexivity|]. left. auto. }
+  2:{ destruct H as [-> ->]. split; [constructor|]. left. auto. }
   destruct H as [r0 [cs0 [-> H]]].
   destruct r0 as [b| |x|e]; simpl in H.
-  4:{ destruct H as [-> H]. inversion H; subst. split; [unfold on_shard; repeat constructor; left; reflexivity|].
-      io_tail dead. }
+  4:{ destruct H as [-> ->]. split; [unfold on_shard; repeat constructor; left; reflexivity | reflexivity]. }
   all: destruct H as [r1 [cs1 [-> H]]]; destruct r1 as [b1| |x1|e1]; simpl in H.
-  all: try (destruct H as [-> H]; inversion H; subst;
-            split; [unfold on_shard; constructor; [left; reflexivity | constructor; [right; reflexivity | constructor]]|];
-            io_tail dead).
-  all: destruct H as [r2 [cs2 [-> H]]]; destruct r2 as [b2| |x2|e2]; simpl in H.
-  all: try (destruct H as [r3 [cs3 [-> H]]]; destruct r3; simpl in H; destruct H as [-> H]; inversion H; subst;
-            (split; [unfold on_shard; constructor; [left; reflexivity | repeat (constructor; [right; reflexivity|]); constructor]|]);
-            io_tail dead).
-  all: destruct dead as [|dd]; simpl in H.
-  all: try (destruct H as [r3 [cs3 [-> H]]]; destruct r3; simpl in H; destruct H as [-> H]; inversion H; subst;
-            (split; [unfold on_shard; constructor; [left; reflexivity | repeat (constructor; [right; reflexivity|]); constructor]|]);
-            try (split; [reflexivity|]; split; [lia|]; split; [reflexivity|];
-                 simpl; rewrite path_eqb_refl; reflexivity);
-            (split; [reflexivity|]; split; [reflexivity|]; right; split; [lia | reflexivity])).
-  all: destruct (data_reach d _ 0%nat cs2 r st' H) as [H1 [H2 H3]];
+  all: try (destruct H as [-> ->];
+            split; [unfold on_shard; constructor; [left; reflexivity | constructor; [right; reflexivity | constructor]]
+                   | reflexivity]).
+  all: destruct H as [r2 [cs2 [-> H]]]; destruct r2 as [b2| |x2|e2].
+  all: try (apply leave_reach in H; destruct H as [-> ->];
+            split; [unfold on_shard; constructor; [left; reflexivity | repeat (constructor; [right; reflexivity|]); constructor]
+                   | reflexivity]).
+  all: destruct (data_reach d _ 0%nat cs2 r H) as [H1 H2];
        (split; [unfold on_shard; constructor; [left; reflexivity | repeat (constructor; [right; reflexivity|]); exact H1]|]);
-       destruct r; try contradiction.
-  all: try (destruct H3 as [H3 H4]; split; [exact H3|]; right; split; [reflexivity|]; split; [reflexivity|];
-            simpl; rewrite H4; reflexivity).
-  all: destruct H3 as [H3 [[H4 H5]|[H4 H5]]]; (split; [reflexivity|]); (split; [exact H3|]); left; (split; [reflexivity|]);
-       unfold nwrites in *; simpl; rewrite H4; unfold sd_n in *; lia.
+       destruct r; [right; split; [reflexivity|]; simpl; rewrite (H2 eq_refl); reflexivity | reflexivity].
 Qed.
 
 (* ---------- the whole close: every reachable result ---------- *)
 
-Fixpoint segs (l1 : list (shard_desc * shst)) (cs : list (call B)) : Prop :=
+Fixpoint segs (l1 : list (shard_desc * bool)) (cs : list (call B)) : Prop :=
   match l1 with
   | [] => cs = []
   | x :: r => exists ca cb, cs = ca ++ cb /\
-              reach (shard_close_prog B plain (fst x) (snd x)) ca (COk, closed_of x) /\ segs r cb
+              reach (shard_close_prog B plain (fst x) (snd x)) ca COk /\ segs r cb
   end.
+
+Definition clean {A} (l : list A) : list bool := map (fun _ => false) l.
 
 Theorem close_reach : forall l done cs r S',
   reach (close_shards B plain l done) cs (r, S') ->
-  (r = COk /\ S' = rev done ++ map closed_of l /\ segs l cs) \/
-  (r <> COk /\ exists l1 x l2 ca cb stx,
-     l = l1 ++ x :: l2 /\ cs = ca ++ cb /\ segs l1 ca /\
-     reach (shard_close_prog B plain (fst x) (snd x)) cb (r, stx) /\
-     S' = rev done ++ map closed_of l1 ++ stx :: map snd l2).
+  (r = COk /\ S' = rev done ++ clean l /\ segs l cs) \/
+  (r = CIOErr /\ exists l1 x l2 ca cb,
+     l = l1 ++ x :: l2 /\ cs = ca ++ cb /\ segs l1 ca /\ snd x = true /\
+     reach (shard_close_prog B plain (fst x) (snd x)) cb CIOErr /\
+     S' = rev done ++ clean l1 ++ true :: map snd l2).
 Proof.
   induction l as [|[d st] l IH]; intros done cs r S' H.
   - simpl in H. destruct H as [-> H]. inversion H; subst. left. simpl. rewrite app_nil_r. repeat split.
-  - simpl in H. apply reach_pbindp in H. destruct H as [cs1 [[res st'] [cs2 [H1 [H2 ->]]]]].
-    simpl fst in H2. simpl snd in H2. destruct res.
-    + pose proof (shard_reach _ _ _ _ _ H1) as [_ [Hst _]]. subst st'.
-      destruct (IH _ _ _ _ H2) as [[-> [-> Hs]] | [Hne [l1 [y [l2 [ca [cb [stx [-> [-> [Hs [Hr ->]]]]]]]]]]]].
+  - simpl in H. apply reach_pbindp in H. destruct H as [cs1 [res [cs2 [H1 [H2 ->]]]]].
+    destruct res.
+    + destruct (IH _ _ _ _ H2) as [[-> [-> Hs]] | [-> [l1 [y [l2 [ca [cb [-> [-> [Hs [Hy [Hr ->]]]]]]]]]]]].
       * left. split; [reflexivity|]. split; [simpl; rewrite <- app_assoc; reflexivity|].
         simpl. exists cs1, cs2. auto.
-      * right. split; [exact Hne|]. exists ((d, st) :: l1), y, l2, (cs1 ++ ca), cb, stx.
+      * right. split; [reflexivity|]. exists ((d, st) :: l1), y, l2, (cs1 ++ ca), cb.
         split; [reflexivity|]. split; [rewrite app_assoc; reflexivity|]. split; [simpl; exists cs1, ca; auto|].
-        split; [exact Hr|]. simpl. rewrite <- app_assoc. reflexivity.
-    + simpl in H2. destruct H2 as [-> H2]. inversion H2; subst. right. split; [discriminate|].
-      exists [], (d, st), l, [], cs1, st'. rewrite app_nil_r. simpl. auto.
-    + simpl in H2. destruct H2 as [-> H2]. inversion H2; subst. right. split; [discriminate|].
-      exists [], (d, st), l, [], cs1, st'. rewrite app_nil_r. simpl. auto.
+        split; [exact Hy|]. split; [exact Hr|]. simpl. rewrite <- app_assoc. reflexivity.
+    + simpl in H2. destruct H2 as [-> H2]. inversion H2; subst. right. split; [reflexivity|].
+      pose proof (shard_reach _ _ _ _ H1) as [_ Hst]. simpl in Hst. subst st.
+      exists [], (d, true), l, [], cs1. rewrite app_nil_r. simpl. repeat split; auto.
 Qed.
 
-(* the calls of the successfully closed shards stay on those shards, and each
-   dirty one among them had intact buffers and was written completely *)
 Lemma lw_app_some : forall f ca cb x, last_written f cb = Some x -> last_written f (ca ++ cb) = Some x.
 Proof. induction ca as [|c ca IH]; intros cb x H; simpl; [exact H|]. rewrite (IH cb x H). reflexivity. Qed.
 
@@ -479,7 +423,7 @@ Proof.
   - rewrite IH. reflexivity.
 Qed.
 
-Definition files_apart (l : list (shard_desc * shst)) : Prop :=
+Definition files_apart (l : list (shard_desc * bool)) : Prop :=
   forall i j x y, nth_error l i = Some x -> nth_error l j = Some y -> i <> j ->
     sd_file (fst x) <> sd_file (fst y) /\ sd_file (fst x) <> sd_dir (fst y).
 
@@ -489,27 +433,27 @@ Proof.
   induction l1 as [|x l1 IH]; intros cs H; simpl in H.
   - subst. constructor.
   - destruct H as [ca [cb [-> [Hr Hs]]]]. apply Forall_app. split.
-    + destruct (shard_reach _ _ _ _ _ Hr) as [Ho _]. eapply Forall_impl; [|exact Ho].
+    + destruct (shard_reach _ _ _ _ Hr) as [Ho _]. eapply Forall_impl; [|exact Ho].
       intros c Hc. exists x. split; [left; reflexivity | exact Hc].
     + eapply Forall_impl; [|exact (IH cb Hs)]. intros c [y [Hy Hc]]. exists y. split; [right; exact Hy | exact Hc].
 Qed.
 
 Lemma segs_complete : forall l1 cs, segs l1 cs -> files_apart l1 ->
-  forall x, In x l1 -> sh_dirty (snd x) = true ->
-  sh_dead (snd x) = 0%nat /\ last_written (sd_file (fst x)) cs = Some (plain (complete (fst x))).
+  forall x, In x l1 -> snd x = true ->
+  last_written (sd_file (fst x)) cs = Some (plain (complete (fst x))).
 Proof.
   induction l1 as [|y l1 IH]; intros cs Hs Hfa x Hin Hd; [contradiction|].
   simpl in Hs. destruct Hs as [ca [cb [-> [Hr Hrest]]]].
   assert (Hfa' : files_apart l1).
   { intros i j a b Ha Hb Hij. apply (Hfa (S i) (S j) a b); simpl; auto. }
   destruct Hin as [-> | Hin].
-  - destruct (shard_reach _ _ _ _ _ Hr) as [_ [_ [[Hc _] | [_ [Hdead Hlw]]]]]; [congruence|].
-    split; [exact Hdead|]. rewrite lw_app_none; [exact Hlw|].
+  - destruct (shard_reach _ _ _ _ Hr) as [_ [[Hc _] | [_ Hlw]]]; [congruence|].
+    rewrite lw_app_none; [exact Hlw|].
     eapply Forall_impl; [|exact (segs_on l1 cb Hrest)]. intros c [z [Hz Hc]].
     apply In_nth_error in Hz. destruct Hz as [j Hj].
     destruct (Hfa 0%nat (S j) x z eq_refl Hj ltac:(discriminate)) as [H1 H2].
     destruct Hc as [Hc|Hc]; rewrite Hc; congruence.
-  - destruct (IH cb Hrest Hfa' x Hin Hd) as [H1 H2]. split; [exact H1 | apply lw_app_some; exact H2].
+  - apply lw_app_some. exact (IH cb Hrest Hfa' x Hin Hd).
 Qed.
 
 (* ---------- (a) a failing primitive makes close fail with an I/O error ---------- *)
@@ -552,41 +496,40 @@ Proof.
     + intro r. apply IH; auto.
 Qed.
 
-Definition is_io (x : cres * shst) : Prop := fst x = CIOErr.
+Definition is_io (x : cres) : Prop := x = CIOErr.
 
 Lemma safe_idx : forall d fuel j, fault_safeP is_io (idx_writes B plain d j fuel).
 Proof.
   intros d fuel. induction fuel as [|f IH]; intro j; simpl.
   - split; [intros e t; reflexivity|]. intros [b| |x|e]; simpl;
-      (split; [intros e' t; reflexivity | intros r; destruct r; exact I]).
+      (split; [intros e' t; reflexivity | intros r; try destruct r; exact I]).
   - split; [intros e t; reflexivity|]. intros [b| |x|e]; simpl; try apply IH.
-    split; [intros e' t; reflexivity | intros r; destruct r; exact I].
+    split; [intros e' t; reflexivity | intros r; exact I].
 Qed.
 
 Lemma safe_data : forall d fuel i, fault_safeP is_io (data_writes B plain d i fuel).
 Proof.
   intros d fuel. induction fuel as [|f IH]; intro i; simpl; [apply safe_idx|].
   split; [intros e t; reflexivity|]. intros [b| |x|e]; simpl; try apply IH.
-  split; [intros e' t; reflexivity | intros r; destruct r; exact I].
+  split; [intros e' t; reflexivity | intros r; exact I].
 Qed.
 
 Lemma safe_shard : forall d st, fault_safeP is_io (shard_close_prog B plain d st).
 Proof.
-  intros d st. unfold shard_close_prog. destruct (sh_dirty st); simpl; [|exact I].
+  intros d st. unfold shard_close_prog. destruct st; simpl; [|exact I].
   split; [intros e t; reflexivity|]. intros [b| |x|e]; simpl; try exact I;
     (split; [intros e' t; reflexivity|]; intros [b1| |x1|e1]; simpl; try exact I;
      (split; [intros e2 t; reflexivity|]; intros [b2| |x2|e2]; simpl;
-      try (split; [intros e3 t; reflexivity | intros r; destruct r; exact I]);
-      (destruct (sh_dead st); [apply safe_data|];
-       simpl; split; [intros e3 t; reflexivity | intros r; destruct r; exact I]))).
+      try (split; [intros e3 t; reflexivity | intros r; exact I]);
+      apply safe_data)).
 Qed.
 
-Lemma safe_close : forall l done, fault_safeP (fun x : cres * list shst => fst x = CIOErr) (close_shards B plain l done).
+Lemma safe_close : forall l done, fault_safeP (fun x : cres * list bool => fst x = CIOErr) (close_shards B plain l done).
 Proof.
   induction l as [|[d st] l IH]; intro done; simpl; [exact I|].
   apply (fsP_bind _ _ is_io); [apply safe_shard | |].
-  - intros [res st'] Hx t. unfold is_io in Hx. simpl in Hx. subst res. reflexivity.
-  - intros [res st']. simpl. destruct res; [apply IH | exact I | exact I].
+  - intros res Hx t. unfold is_io in Hx. subst res. reflexivity.
+  - intros res. destruct res; [apply IH | exact I].
 Qed.
 
 Theorem close_fault_to_error : forall l k e t,
@@ -594,77 +537,528 @@ Theorem close_fault_to_error : forall l k e t,
   run_fault B empty trunc k e t (close_prog B plain l) = run B empty t (close_prog B plain l).
 Proof. intros l k e t. apply (fault_safeP_sound _ _ _ (safe_close l [])). Qed.
 
-(* ---------- (c) the retry ---------- *)
-
-(* the shard list of a second close on the state the first one left *)
-Lemma retry_descs_eq : forall l1 x l2 stx,
-  retry_descs (l1 ++ x :: l2) (map closed_of l1 ++ stx :: map snd l2)
-  = map (fun y => (fst y, closed_of y)) l1 ++ (fst x, stx) :: l2.
-Proof.
-  intros l1 x l2 stx. unfold retry_descs. induction l1 as [|y l1 IH]; simpl.
-  - f_equal. induction l2 as [|[d s] l2 IHl]; simpl; [reflexivity | f_equal; exact IHl].
-  - f_equal. exact IH.
-Qed.
-
-(* a second close can only return normally if the buffers of the shard that
-   failed were all still there ... *)
-Theorem retry_ok_needs_buffers : forall l1 dx stx l2 cs2 S2,
-  sh_dirty stx = true ->
-  reach (close_prog B plain (l1 ++ (dx, stx) :: l2)) cs2 (COk, S2) -> sh_dead stx = 0%nat.
-Proof.
-  intros l1 dx stx l2 cs2 S2 Hd H. unfold close_prog in H.
-  destruct (close_reach _ _ _ _ _ H) as [[_ [_ Hs]] | [Hne _]]; [|congruence].
-  clear H. revert cs2 Hs. induction l1 as [|y l1 IH]; intros cs2 Hs; simpl in Hs.
-  - destruct Hs as [ca [cb [_ [Hr _]]]]. simpl in Hr.
-    destruct (shard_reach _ _ _ _ _ Hr) as [_ [_ [[Hc _] | [_ [H0 _]]]]]; [congruence | exact H0].
-  - destruct Hs as [ca [cb [_ [_ Hs]]]]. exact (IH cb Hs).
-Qed.
-
-(* ... and then every shard that was still dirty is written completely (the
-   others are not touched: no call at all) *)
-Theorem retry_ok_complete : forall l cs2 S2,
-  reach (close_prog B plain l) cs2 (COk, S2) -> files_apart l ->
-  S2 = map closed_of l /\
-  forall x, In x l -> sh_dirty (snd x) = true ->
-    sh_dead (snd x) = 0%nat /\ last_written (sd_file (fst x)) cs2 = Some (plain (complete (fst x))).
-Proof.
-  intros l cs2 S2 H Hfa. unfold close_prog in H.
-  destruct (close_reach _ _ _ _ _ H) as [[_ [HS Hs]] | [Hne _]]; [|congruence].
-  split; [exact HS|]. exact (segs_complete l cs2 Hs Hfa).
-Qed.
-
-(* otherwise the second close raises: it is an I/O error or the
-   AttributeError, and in the latter case the shard file has just been
-   truncated to the zero header *)
-Lemma skip_clean : forall l1 rest done, Forall (fun y => sh_dirty (snd y) = false) l1 ->
-  close_shards B plain (l1 ++ rest) done = close_shards B plain rest (rev (map snd l1) ++ done).
-Proof.
-  induction l1 as [|[d st] l1 IH]; intros rest done Hc; [reflexivity|].
-  inversion Hc as [|? ? Hd Hrest]; subst. simpl in Hd. simpl.
-  unfold shard_close_prog. rewrite Hd. simpl. rewrite (IH rest (st :: done) Hrest).
-  rewrite <- app_assoc. reflexivity.
-Qed.
-
-Theorem retry_raises : forall l1 dx stx l2 cs2 r2 S2,
-  sh_dirty stx = true -> (0 < sh_dead stx)%nat ->
-  Forall (fun y => sh_dirty (snd y) = false) l1 ->
-  reach (close_prog B plain (l1 ++ (dx, stx) :: l2)) cs2 (r2, S2) ->
-  r2 <> COk /\ S2 = map snd l1 ++ stx :: map snd l2 /\
-  (r2 = CAttrErr -> last_written (sd_file dx) cs2 = Some (plain (sd_zero dx))).
-Proof.
-  intros l1 dx stx l2 cs2 r2 S2 Hd Hdead Hclean H. unfold close_prog in H.
-  rewrite (skip_clean l1 _ [] Hclean) in H. simpl in H. rewrite app_nil_r in H.
-  apply reach_pbindp in H. destruct H as [cs1 [[res st'] [cs3 [H1 [H2 ->]]]]].
-  pose proof (shard_reach _ _ _ _ _ H1) as [_ Hs]. simpl fst in H2. simpl snd in H2.
-  destruct res.
-  - destruct Hs as [_ [[Hc _] | [_ [H0 _]]]]; [congruence | lia].
-  - simpl in H2. destruct H2 as [-> H2]. inversion H2; subst.
-    destruct Hs as [_ [_ [[H0 _] | [_ ->]]]]; [lia|].
-    split; [discriminate|]. split; [rewrite rev_involutive; reflexivity | discriminate].
-  - simpl in H2. destruct H2 as [-> H2]. inversion H2; subst.
-    destruct Hs as [_ [_ [-> Hlw]]].
-    split; [discriminate|]. split; [rewrite rev_involutive; reflexivity|].
-    intros _. rewrite app_nil_r. exact Hlw.
-Qed.
-
 End CLOSEP.
+
+(* ---------- (c) the trees: close(), then close() again ---------- *)
+
+Section CLOSEFS.
+Variable B : Type.
+Variable plain : list N -> B.
+Variable trunc : B -> B.
+Notation empty := (plain []).
+Notation prog := (prog B).
+Notation lookup := (lookup B).
+Notation update := (update B).
+
+(* every run with its trees: each call is executed, or it fails and leaves
+   [fail_effect] (any number of failures, any errno) *)
+Fixpoint treach {A} (p : prog A) (t : fs B) (a : A) (t' : fs B) : Prop :=
+  match p with
+  | Ret x => a = x /\ t' = t
+  | Do c k => treach (k (fst (exec_call B empty t c))) (snd (exec_call B empty t c)) a t' \/
+              exists e, treach (k (RErr e)) (fail_effect B trunc t c) a t'
+  end.
+
+Lemma run_treach : forall A (p : prog A) t,
+  treach p t (fst (run B empty t p)) (snd (run B empty t p)).
+Proof.
+  intros A p. induction p as [a | c k IH]; intro t; simpl; [auto|].
+  left. destruct (exec_call B empty t c) as [r t1]. simpl. apply IH.
+Qed.
+
+Lemma run_fault_treach : forall A (p : prog A) k e t,
+  treach p t (fst (run_fault B empty trunc k e t p)) (snd (run_fault B empty trunc k e t p)).
+Proof.
+  intros A p. induction p as [a | c kont IH]; intros k e t.
+  - destruct k; simpl; auto.
+  - destruct k as [|k']; simpl.
+    + right. exists e. apply run_treach.
+    + left. destruct (exec_call B empty t c) as [r t1]. simpl. apply IH.
+Qed.
+
+Lemma treach_pbindp : forall A C (p : prog A) (f : A -> prog C) t a t',
+  treach (pbindp B p f) t a t' -> exists x tm, treach p t x tm /\ treach (f x) tm a t'.
+Proof.
+  intros A C p f. induction p as [x | c k IH]; intros t a t' H; simpl in H.
+  - exists x, t. simpl. auto.
+  - destruct H as [H | [e H]].
+    + destruct (IH _ _ _ _ H) as [x [tm [H1 H2]]]. exists x, tm. split; [simpl; left; exact H1 | exact H2].
+    + destruct (IH _ _ _ _ H) as [x [tm [H1 H2]]]. exists x, tm. split; [simpl; right; exists e; exact H1 | exact H2].
+Qed.
+
+Lemma treach_Do : forall A c (k : reply B -> prog A) t a t',
+  treach (Do c k) t a t' ->
+  (exists r t1, exec_call B empty t c = (r, t1) /\ treach (k r) t1 a t') \/
+  (exists e, treach (k (RErr e)) (fail_effect B trunc t c) a t').
+Proof.
+  intros A c k t a t' H. simpl in H. destruct H as [H | H]; [left | right; exact H].
+  destruct (exec_call B empty t c) as [r t1]. exists r, t1. auto.
+Qed.
+
+(* the shard files of one accessor: <dir>/<name> with ordinary names, and no
+   shard file is (a directory above) a shard directory *)
+Definition shard_wf (d : shard_desc) : Prop :=
+  cleanb (sd_file d) = true /\ exists c, sd_file d = sd_dir d ++ [c].
+Definition apart (ds : list shard_desc) : Prop :=
+  (forall d, In d ds -> shard_wf d) /\
+  (forall x y, In x ds -> In y ds -> ~ prefix (sd_file x) (sd_dir y)).
+(* the tree lets every shard be written: no file where a directory is needed,
+   no directory where a shard file goes *)
+Definition good (ds : list shard_desc) (t : fs B) : Prop :=
+  tree_closed B t /\
+  forall d, In d ds ->
+    (forall q b, prefix q (sd_dir d) -> lookup t q <> Some (File b)) /\
+    lookup t (sd_file d) <> Some Dir.
+Definition ready (ds : list shard_desc) (d : shard_desc) (t : fs B) : Prop :=
+  good ds t /\ lookup t (sd_dir d) = Some Dir.
+
+Lemma wf_facts : forall d, shard_wf d ->
+  sd_file d <> [] /\ removelast (sd_file d) = sd_dir d /\ cleanb (sd_dir d) = true /\
+  path_eqb (sd_file d) (sd_dir d) = false.
+Proof.
+  intros d [Hc [c E]]. split; [rewrite E; intro H; destruct (sd_dir d); discriminate|].
+  split; [rewrite E; apply removelast_snoc|].
+  split; [rewrite E, cleanb_app in Hc; apply andb_true_iff in Hc; tauto|].
+  apply path_eqb_neq. rewrite E. intro H. apply (f_equal (@length _)) in H. rewrite app_length in H. simpl in H. lia.
+Qed.
+
+Section ONE.
+Variable ds : list shard_desc.
+Hypothesis Hap : apart ds.
+Variable d : shard_desc.
+Hypothesis Hd : In d ds.
+
+Lemma ready_update : forall t b, ready ds d t -> ready ds d (update t (sd_file d) (File b)).
+Proof.
+  intros t b [[Hcl Hg] Hdir]. destruct Hap as [Hwf Hpre].
+  destruct (wf_facts d (Hwf d Hd)) as [Hne [Hrl [Hcd Hfd]]].
+  split; [split|].
+  - apply closed_update; [exact Hcl | exact Hne | rewrite Hrl; exact Hdir|].
+    intro c. left. destruct (lookup t (sd_file d ++ [c])) eqn:E; [|reflexivity].
+    exfalso. apply (proj2 (Hg d Hd)). apply (Hcl (sd_file d) c). rewrite E. discriminate.
+  - intros y Hy. destruct (Hg y Hy) as [G1 G2]. split.
+    + intros q b' Hq. rewrite lookup_update by exact Hne.
+      destruct (path_eqb (sd_file d) q) eqn:E.
+      * apply path_eqb_eq in E. subst q. exfalso. exact (Hpre d y Hd Hy Hq).
+      * apply G1. exact Hq.
+    + rewrite lookup_update by exact Hne. destruct (path_eqb (sd_file d) (sd_file y)); [discriminate | exact G2].
+  - rewrite lookup_update by exact Hne. rewrite Hfd. exact Hdir.
+Qed.
+
+Lemma write_ready : forall t b, ready ds d t ->
+  write_at B t (sd_file d) b = update t (sd_file d) (File b).
+Proof.
+  intros t b [[Hcl Hg] Hdir]. destruct Hap as [Hwf Hpre].
+  destruct (wf_facts d (Hwf d Hd)) as [Hne [Hrl [Hcd Hfd]]].
+  apply write_ok; [exact Hcl | exact (proj1 (Hwf d Hd)) | exact Hne | rewrite Hrl; exact Hdir].
+Qed.
+
+Lemma exec_open_ready : forall t, ready ds d t ->
+  exec_call B empty t (COpen (sd_file d) MW) = (RUnit, update t (sd_file d) (File empty)).
+Proof.
+  intros t [[Hcl Hg] Hdir]. destruct Hap as [Hwf Hpre].
+  destruct (wf_facts d (Hwf d Hd)) as [Hne [Hrl [Hcd Hfd]]].
+  simpl. rewrite (open_ok B empty t (sd_file d) MW Hcl (proj1 (Hwf d Hd)) Hne) by (rewrite Hrl; exact Hdir).
+  pose proof (proj2 (Hg d Hd)) as G2.
+  destruct (lookup t (sd_file d)) as [[b|]|]; try reflexivity. congruence.
+Qed.
+
+Lemma exec_mk_good : forall t, good ds t ->
+  exists t1, exec_call B empty t (CMakedirs (sd_dir d)) = (RUnit, t1) /\ ready ds d t1 /\
+    forall q, lookup t1 q = if is_prefix q (sd_dir d) then Some Dir else lookup t q.
+Proof.
+  intros t [Hcl Hg]. destruct Hap as [Hwf Hpre].
+  destruct (wf_facts d (Hwf d Hd)) as [Hne [Hrl [Hcd Hfd]]].
+  destruct (makedirs_ok B t (sd_dir d) Hcl Hcd (proj1 (Hg d Hd))) as [t1 [Hm [Hc1 Hl1]]].
+  exists t1. simpl. rewrite Hm. split; [reflexivity|]. split; [|exact Hl1].
+  split; [split; [exact Hc1|]|].
+  - intros y Hy. destruct (Hg y Hy) as [G1 G2]. split.
+    + intros q b Hq. rewrite Hl1. destruct (is_prefix q (sd_dir d)); [discriminate | apply G1; exact Hq].
+    + rewrite Hl1. destruct (is_prefix (sd_file y) (sd_dir d)) eqn:E; [|exact G2].
+      apply is_prefix_iff in E. exfalso. exact (Hpre y d Hy Hd E).
+  - rewrite Hl1. replace (is_prefix (sd_dir d) (sd_dir d)) with true; [reflexivity|].
+    symmetry. apply is_prefix_iff. apply prefix_refl.
+Qed.
+
+Definition upd (t t' : fs B) : Prop := forall q, q <> sd_file d -> lookup t' q = lookup t q.
+
+Lemma upd_update : forall t b, upd t (update t (sd_file d) (File b)).
+Proof.
+  intros t b q Hq. apply lookup_update_other. congruence.
+Qed.
+Lemma upd_trans : forall a b c, upd a b -> upd b c -> upd a c.
+Proof. intros a b c H1 H2 q Hq. rewrite (H2 q Hq). apply H1. exact Hq. Qed.
+
+Lemma lookup_file_update : forall t b, lookup (update t (sd_file d) (File b)) (sd_file d) = Some (File b).
+Proof.
+  intros t b. destruct Hap as [Hwf _]. apply lookup_update_same. exact (proj1 (wf_facts d (Hwf d Hd))).
+Qed.
+
+Lemma treach_leave : forall t r t', treach (leave B (sd_file d)) t r t' -> r = CIOErr /\ t' = t.
+Proof.
+  intros t r t' H. simpl in H. destruct H as [[-> ->] | [e [-> ->]]]; auto.
+Qed.
+
+(* one write of the shard file, executed or failing *)
+Lemma write_cases : forall A b (k : reply B -> prog A) t a t',
+  ready ds d t -> treach (Do (CWrite (sd_file d) b) k) t a t' ->
+  exists t1, ready ds d t1 /\ upd t t1 /\
+    ((lookup t1 (sd_file d) = Some (File b) /\ treach (k RUnit) t1 a t') \/
+     (exists e, treach (k (RErr e)) t1 a t')).
+Proof.
+  intros A b k t a t' Hr H. simpl in H. destruct H as [H | [e H]].
+  - rewrite (write_ready t b Hr) in H. exists (update t (sd_file d) (File b)).
+    split; [apply ready_update; exact Hr|]. split; [apply upd_update|]. left.
+    split; [apply lookup_file_update | exact H].
+  - rewrite (write_ready t (trunc b) Hr) in H. exists (update t (sd_file d) (File (trunc b))).
+    split; [apply ready_update; exact Hr|]. split; [apply upd_update|]. right. exists e. exact H.
+Qed.
+
+Lemma T_idx : forall fuel j t r t',
+  ready ds d t -> treach (idx_writes B plain d j fuel) t r t' ->
+  ready ds d t' /\ upd t t' /\ (r = COk -> lookup t' (sd_file d) = Some (File (plain (complete d)))).
+Proof.
+  induction fuel as [|f IH]; intros j t r t' Hr H; cbn [idx_writes] in H.
+  - destruct (write_cases _ _ _ _ _ _ Hr H) as [t1 [Hr1 [Hu1 [[Hl H1] | [e H1]]]]].
+    + simpl in H1. destruct H1 as [[-> ->] | [e [-> ->]]]; (split; [exact Hr1|]; split; [exact Hu1|]);
+        intro E; [exact Hl | discriminate].
+    + apply treach_leave in H1. destruct H1 as [-> ->]. split; [exact Hr1|]. split; [exact Hu1 | discriminate].
+  - destruct (write_cases _ _ _ _ _ _ Hr H) as [t1 [Hr1 [Hu1 [[Hl H1] | [e H1]]]]].
+    + destruct (IH _ _ _ _ Hr1 H1) as [H2 [H3 H4]]. split; [exact H2|]. split; [exact (upd_trans _ _ _ Hu1 H3) | exact H4].
+    + apply treach_leave in H1. destruct H1 as [-> ->]. split; [exact Hr1|]. split; [exact Hu1 | discriminate].
+Qed.
+
+Lemma T_data : forall fuel i t r t',
+  ready ds d t -> treach (data_writes B plain d i fuel) t r t' ->
+  ready ds d t' /\ upd t t' /\ (r = COk -> lookup t' (sd_file d) = Some (File (plain (complete d)))).
+Proof.
+  induction fuel as [|f IH]; intros i t r t' Hr H; cbn [data_writes] in H.
+  - exact (T_idx _ _ _ _ _ Hr H).
+  - destruct (write_cases _ _ _ _ _ _ Hr H) as [t1 [Hr1 [Hu1 [[Hl H1] | [e H1]]]]].
+    + destruct (IH _ _ _ _ Hr1 H1) as [H2 [H3 H4]]. split; [exact H2|]. split; [exact (upd_trans _ _ _ Hu1 H3) | exact H4].
+    + apply treach_leave in H1. destruct H1 as [-> ->]. split; [exact Hr1|]. split; [exact Hu1 | discriminate].
+Qed.
+
+Lemma shard_close_dirty :
+  shard_close_prog B plain d true =
+  Do (CMakedirs (sd_dir d)) (fun r =>
+  match r with
+  | RErr _ => Ret CIOErr
+  | _ =>
+    Do (COpen (sd_file d) MW) (fun r =>
+    match r with
+    | RErr _ => Ret CIOErr
+    | _ =>
+      Do (CWrite (sd_file d) (plain (sd_zero d))) (fun r =>
+      match r with
+      | RErr _ => leave B (sd_file d)
+      | _ => data_writes B plain d 0 (sd_n d)
+      end)
+    end)
+  end).
+Proof. reflexivity. Qed.
+
+(* Shard.close on a good tree, with any failures: the tree stays good, only the
+   shard file and (as directories) the path to it change; a normal return of a
+   dirty shard leaves the complete shard file *)
+Lemma T_shard : forall dirty t r t',
+  good ds t -> treach (shard_close_prog B plain d dirty) t r t' ->
+  good ds t' /\
+  (forall q, q <> sd_file d -> ~ prefix q (sd_dir d) -> lookup t' q = lookup t q) /\
+  (dirty = false -> t' = t /\ r = COk) /\
+  (r = CIOErr -> dirty = true) /\
+  (r = COk -> dirty = true -> lookup t' (sd_file d) = Some (File (plain (complete d)))).
+Proof.
+  intros dirty t r t' Hg H. destruct dirty.
+  2:{ simpl in H. destruct H as [-> ->]. split; [exact Hg|]. split; [reflexivity|].
+      split; [auto|]. split; [discriminate | discriminate]. }
+  rewrite shard_close_dirty in H.
+  assert (Hsame : forall t1, (forall q, lookup t1 q = if is_prefix q (sd_dir d) then Some Dir else lookup t q) ->
+            forall t2, upd t1 t2 -> forall q, q <> sd_file d -> ~ prefix q (sd_dir d) -> lookup t2 q = lookup t q).
+  { intros t1 Hl1 t2 Hu q Hq Hp. rewrite (Hu q Hq), Hl1.
+    destruct (is_prefix q (sd_dir d)) eqn:E; [|reflexivity]. apply is_prefix_iff in E. contradiction. }
+  destruct (exec_mk_good t Hg) as [t1 [Hmk [Hr1 Hl1]]].
+  apply treach_Do in H. destruct H as [[r0 [t0 [E H]]] | [e H]].
+  2:{ simpl in H. destruct H as [-> ->]. split; [exact Hg|]. split; [reflexivity|].
+      split; [discriminate|]. split; [reflexivity | discriminate]. }
+  rewrite Hmk in E. inversion E; subst r0 t0. clear E.
+  apply treach_Do in H. destruct H as [[r0 [t0 [E H]]] | [e H]].
+  2:{ simpl in H. destruct H as [-> ->]. split; [exact (proj1 Hr1)|].
+      split; [apply (Hsame t1 Hl1 t1); intros q Hq; reflexivity|].
+      split; [discriminate|]. split; [reflexivity | discriminate]. }
+  rewrite (exec_open_ready t1 Hr1) in E. inversion E; subst r0 t0. clear E.
+  pose proof (ready_update t1 empty Hr1) as Hr2. pose proof (upd_update t1 empty) as Hu2.
+  destruct (write_cases _ _ _ _ _ _ Hr2 H) as [t3 [Hr3 [Hu3 [[Hl H3] | [e H3]]]]].
+  - destruct (T_data _ _ _ _ _ Hr3 H3) as [H4 [H5 H6]].
+    split; [exact (proj1 H4)|].
+    split; [apply (Hsame t1 Hl1); exact (upd_trans _ _ _ Hu2 (upd_trans _ _ _ Hu3 H5))|].
+    split; [discriminate|]. split; [reflexivity|]. intros E _. exact (H6 E).
+  - apply treach_leave in H3. destruct H3 as [-> ->]. split; [exact (proj1 Hr3)|].
+    split; [apply (Hsame t1 Hl1); exact (upd_trans _ _ _ Hu2 Hu3)|].
+    split; [discriminate|]. split; [reflexivity | discriminate].
+Qed.
+
+(* without failure the writes cannot fail: only mkdir and open can, and on a
+   good tree they do not *)
+Lemma R_idx : forall fuel j t, fst (run B empty t (idx_writes B plain d j fuel)) = COk.
+Proof. induction fuel as [|f IH]; intros j t; simpl; [reflexivity | apply IH]. Qed.
+Lemma R_data : forall fuel i t, fst (run B empty t (data_writes B plain d i fuel)) = COk.
+Proof. induction fuel as [|f IH]; intros i t; simpl; [apply R_idx | apply IH]. Qed.
+
+Lemma R_shard : forall dirty t, good ds t -> fst (run B empty t (shard_close_prog B plain d dirty)) = COk.
+Proof.
+  intros dirty t Hg. destruct dirty; [|reflexivity].
+  rewrite shard_close_dirty. destruct (exec_mk_good t Hg) as [t1 [Hmk [Hr1 Hl1]]].
+  cbn [run]. rewrite Hmk. cbn [run]. rewrite (exec_open_ready t1 Hr1). cbn [run exec_call]. apply R_data.
+Qed.
+
+End ONE.
+
+(* ---------- the whole close on the trees ---------- *)
+
+Section ALL.
+Variable ds : list shard_desc.
+Hypothesis Hap : apart ds.
+
+Definition fname (x : shard_desc * bool) : path := sd_file (fst x).
+Definition whole (t : fs B) (x : shard_desc * bool) : Prop :=
+  lookup t (fname x) = Some (File (plain (complete (fst x)))).
+(* q is neither the file of a dirty shard of l nor a directory on the way to one *)
+Definition off (l : list (shard_desc * bool)) (q : path) : Prop :=
+  forall x, In x l -> snd x = true -> q <> fname x /\ ~ prefix q (sd_dir (fst x)).
+
+Lemma off_file : forall x l, In (fst x) ds -> incl (map fst l) ds -> ~ In (fname x) (map fname l) -> off l (fname x).
+Proof.
+  intros x l Hx Hl Hn y Hy _. split.
+  - intro E. apply Hn. rewrite E. apply in_map. exact Hy.
+  - apply (proj2 Hap); [exact Hx | apply Hl; apply in_map; exact Hy].
+Qed.
+
+(* any run of close - failures included - on a good tree *)
+Theorem T_close : forall l done t r S t',
+  incl (map fst l) ds -> NoDup (map fname l) -> good ds t ->
+  treach (close_shards B plain l done) t (r, S) t' ->
+  good ds t' /\
+  (forall q, off l q -> lookup t' q = lookup t q) /\
+  exists S0, S = rev done ++ S0 /\
+    Forall2 (fun x s => s = false -> snd x = true -> whole t' x) l S0.
+Proof.
+  induction l as [|[d st] l IH]; intros done t r S t' Hin Hnd Hg H.
+  - simpl in H. destruct H as [E ->]. inversion E; subst. split; [exact Hg|]. split; [reflexivity|].
+    exists []. rewrite app_nil_r. split; [reflexivity | constructor].
+  - simpl in H. apply treach_pbindp in H. destruct H as [res [tm [H1 H2]]].
+    assert (Hd : In d ds) by (apply Hin; left; reflexivity).
+    assert (Hin' : incl (map fst l) ds) by (intros y Hy; apply Hin; right; exact Hy).
+    inversion Hnd as [|? ? Hnotin Hnd']; subst.
+    destruct (T_shard ds Hap d Hd st t res tm Hg H1) as [Hgm [Hsame [Hclean [Hio Hok]]]].
+    destruct res.
+    + destruct (IH _ _ _ _ _ Hin' Hnd' Hgm H2) as [Hg' [Hoff [S0 [-> HF]]]].
+      split; [exact Hg'|]. split.
+      * intros q Hq. rewrite Hoff by (intros y Hy Hdy; apply Hq; [right; exact Hy | exact Hdy]).
+        destruct st.
+        -- destruct (Hq (d, true) (or_introl eq_refl) eq_refl) as [Q1 Q2]. apply Hsame; assumption.
+        -- destruct (Hclean eq_refl) as [-> _]. reflexivity.
+      * exists (false :: S0). split; [simpl; rewrite <- app_assoc; reflexivity|].
+        constructor; [|exact HF]. intros _ Hst. simpl in Hst. subst st. unfold whole.
+        rewrite (Hoff (fname (d, true))); [exact (Hok eq_refl eq_refl)|].
+        apply (off_file (d, true)); assumption.
+    + simpl in H2. destruct H2 as [E ->]. inversion E; subst. split; [exact Hgm|]. split.
+      * intros q Hq. rewrite (Hio eq_refl) in *.
+        destruct (Hq (d, true) (or_introl eq_refl) eq_refl) as [Q1 Q2]. apply Hsame; assumption.
+      * exists (st :: map snd l). split; [reflexivity|]. constructor.
+        -- intros Hs. rewrite (Hio eq_refl) in Hs. discriminate.
+        -- clear. induction l as [|y l IHl]; simpl; constructor; [|exact IHl].
+           intros Hs Hy. rewrite Hs in Hy. discriminate.
+Qed.
+
+(* close without failure on a good tree returns normally; the shards that were
+   dirty, and those whose file was whole before, have a whole file afterwards *)
+Theorem R_close : forall l done t,
+  incl (map fst l) ds -> NoDup (map fname l) -> good ds t ->
+  exists t', run B empty t (close_shards B plain l done) = ((COk, rev done ++ clean l), t') /\
+    good ds t' /\
+    (forall q, off l q -> lookup t' q = lookup t q) /\
+    (forall x, In x l -> snd x = true \/ whole t x -> whole t' x).
+Proof.
+  induction l as [|[d st] l IH]; intros done t Hin Hnd Hg.
+  - exists t. simpl. rewrite app_nil_r. split; [reflexivity|]. split; [exact Hg|]. split; [reflexivity | contradiction].
+  - assert (Hd : In d ds) by (apply Hin; left; reflexivity).
+    assert (Hin' : incl (map fst l) ds) by (intros y Hy; apply Hin; right; exact Hy).
+    inversion Hnd as [|? ? Hnotin Hnd']; subst.
+    simpl. rewrite run_pbindp.
+    pose proof (run_treach _ (shard_close_prog B plain d st) t) as H1.
+    pose proof (R_shard ds Hap d Hd st t Hg) as Hres.
+    destruct (run B empty t (shard_close_prog B plain d st)) as [res tm]. simpl in H1, Hres. subst res.
+    destruct (T_shard ds Hap d Hd st t COk tm Hg H1) as [Hgm [Hsame [Hclean [_ Hok]]]].
+    destruct (IH (false :: done) tm Hin' Hnd' Hgm) as [t' [Hrun [Hg' [Hoff Hwh]]]].
+    exists t'. rewrite Hrun. split; [simpl; rewrite <- app_assoc; reflexivity|]. split; [exact Hg'|].
+    assert (Hoffm : forall q, off ((d, st) :: l) q -> lookup tm q = lookup t q).
+    { intros q Hq. destruct st.
+      - destruct (Hq (d, true) (or_introl eq_refl) eq_refl) as [Q1 Q2]. apply Hsame; assumption.
+      - destruct (Hclean eq_refl) as [-> _]. reflexivity. }
+    split.
+    + intros q Hq. rewrite Hoff by (intros y Hy Hdy; apply Hq; [right; exact Hy | exact Hdy]).
+      apply Hoffm. exact Hq.
+    + intros x [<- | Hx] Hc.
+      * unfold whole. rewrite (Hoff (fname (d, st))) by (apply (off_file (d, st)); assumption).
+        destruct st.
+        -- exact (Hok eq_refl eq_refl).
+        -- destruct (Hclean eq_refl) as [-> _]. destruct Hc as [Hc | Hc]; [discriminate | exact Hc].
+      * apply Hwh; [exact Hx|]. destruct Hc as [Hc | Hc]; [left; exact Hc | right].
+        unfold whole. destruct st.
+        -- rewrite Hsame; [exact Hc | |].
+           ++ intro E. apply Hnotin. replace (fname (d, true)) with (fname x) by exact E. apply in_map. exact Hx.
+           ++ apply (proj2 Hap); [apply Hin'; apply in_map; exact Hx | exact Hd].
+        -- destruct (Hclean eq_refl) as [-> _]. exact Hc.
+Qed.
+
+End ALL.
+
+Lemma F2_in : forall (R : shard_desc * bool -> bool -> Prop) l S0, Forall2 R l S0 ->
+  map fst (combine (map fst l) S0) = map fst l /\
+  forall x, In x l -> exists s, In (fst x, s) (combine (map fst l) S0) /\ R x s.
+Proof.
+  intros R l S0 H. induction H as [|x s l S0 Hxs HF [IH1 IH2]]; simpl; [split; [reflexivity | contradiction]|].
+  split; [f_equal; exact IH1|]. intros y [<- | Hy].
+  - exists s. split; [left; reflexivity | exact Hxs].
+  - destruct (IH2 y Hy) as [s' [Hi Hr]]. exists s'. split; [right; exact Hi | exact Hr].
+Qed.
+
+(* (c) close() with ANY failures, then close() again without failure *)
+Theorem close_retry : forall l t r1 S1 t1,
+  apart (map fst l) -> NoDup (map fname l) -> good (map fst l) t ->
+  treach (close_prog B plain l) t (r1, S1) t1 ->
+  exists t2, run B empty t1 (close_prog B plain (retry_descs l S1)) = ((COk, clean l), t2) /\
+    good (map fst l) t2 /\
+    (forall x, In x l -> snd x = true -> whole t2 x) /\
+    (forall q, (forall x, In x l -> q <> fname x /\ ~ prefix q (sd_dir (fst x))) -> lookup t2 q = lookup t q).
+Proof.
+  intros l t r1 S1 t1 Hap Hnd Hg H. unfold close_prog in *.
+  destruct (T_close (map fst l) Hap l [] t r1 S1 t1 (incl_refl _) Hnd Hg H) as [Hg1 [Hoff1 [S0 [-> HF]]]].
+  simpl. destruct (F2_in _ _ _ HF) as [Hfst Hin]. unfold retry_descs.
+  assert (Hfn : map fname (combine (map fst l) S0) = map fname l).
+  { unfold fname. rewrite <- (map_map fst sd_file), Hfst, map_map. reflexivity. }
+  destruct (R_close (map fst l) Hap (combine (map fst l) S0) [] t1) as [t2 [Hrun [Hg2 [Hoff2 Hwh]]]].
+  - rewrite Hfst. apply incl_refl.
+  - rewrite Hfn. exact Hnd.
+  - exact Hg1.
+  - exists t2. rewrite Hrun. split.
+    + simpl. f_equal. f_equal. unfold clean.
+      rewrite <- (map_map fst (fun _ => false)), Hfst, map_map. reflexivity.
+    + split; [exact Hg2|]. split.
+      * intros x Hx Hdx. destruct (Hin x Hx) as [s [Hs HR]].
+        change (whole t2 (fst x, s)). apply Hwh; [exact Hs|]. destruct s; [left; reflexivity | right].
+        exact (HR eq_refl Hdx).
+      * intros q Hq. rewrite Hoff2, Hoff1; [reflexivity | |].
+        -- intros x Hx _. exact (Hq x Hx).
+        -- intros y Hy _. assert (Hy' : In (fst y) (map fst l)).
+           { rewrite <- Hfst. apply in_map. exact Hy. }
+           apply in_map_iff in Hy'. destruct Hy' as [x [E Hx]]. unfold fname. rewrite <- E. exact (Hq x Hx).
+Qed.
+
+(* the same for the interpreter the harness compares with *)
+Corollary close_retry_fault : forall l k e t,
+  apart (map fst l) -> NoDup (map fname l) -> good (map fst l) t ->
+  let '((r1, S1), t1) := run_fault B empty trunc k e t (close_prog B plain l) in
+  exists t2, run B empty t1 (close_prog B plain (retry_descs l S1)) = ((COk, clean l), t2) /\
+    forall x, In x l -> snd x = true -> whole t2 x.
+Proof.
+  intros l k e t Hap Hnd Hg.
+  pose proof (run_fault_treach _ (close_prog B plain l) k e t) as H.
+  destruct (run_fault B empty trunc k e t (close_prog B plain l)) as [[r1 S1] t1]. simpl in H.
+  destruct (close_retry l t r1 S1 t1 Hap Hnd Hg H) as [t2 [H1 [_ [H2 _]]]]. exists t2. auto.
+Qed.
+
+(* every interpreter run is a [reach] / [treach] run *)
+Lemma runs_are_reachable : forall A (p : prog A) k e t,
+  (exists cs, reach B p cs (fst (run_fault B empty trunc k e t p))) /\
+  treach p t (fst (run_fault B empty trunc k e t p)) (snd (run_fault B empty trunc k e t p)) /\
+  treach p t (fst (run B empty t p)) (snd (run B empty t p)).
+Proof.
+  intros. split; [apply run_fault_reach|]. split; [apply run_fault_treach | apply run_treach].
+Qed.
+
+End CLOSEFS.
+
+(* ---------- the hypotheses are decidable; the checkers are sound ---------- *)
+
+Lemma wfb_sound : forall d, wfb d = true -> shard_wf d.
+Proof.
+  intros d H. unfold wfb in H. apply andb_true_iff in H. destruct H as [H1 H2]. split; [exact H1|].
+  destruct (rev (sd_file d)) as [|c r] eqn:E; [discriminate|]. apply path_eqb_eq in H2.
+  exists c. rewrite <- H2. apply (f_equal (@rev _)) in E. rewrite rev_involutive in E. exact E.
+Qed.
+
+Lemma apartb_sound : forall ds, apartb ds = true -> apart ds.
+Proof.
+  intros ds H. unfold apartb in H. apply andb_true_iff in H. destruct H as [H1 H2].
+  rewrite forallb_forall in H1. rewrite forallb_forall in H2. split.
+  - intros d Hd. apply wfb_sound. apply H1. exact Hd.
+  - intros x y Hx Hy Hp. specialize (H2 x Hx). rewrite forallb_forall in H2. specialize (H2 y Hy).
+    apply is_prefix_iff in Hp. rewrite Hp in H2. discriminate.
+Qed.
+
+Lemma nodupb_sound : forall l, nodupb l = true -> NoDup l.
+Proof.
+  induction l as [|p l IH]; intro H; [constructor|]. simpl in H. apply andb_true_iff in H. destruct H as [H1 H2].
+  constructor; [|exact (IH H2)]. intro Hin. apply negb_true_iff in H1.
+  assert (E : existsb (path_eqb p) l = true) by (apply existsb_exists; exists p; split; [exact Hin | apply path_eqb_refl]).
+  congruence.
+Qed.
+
+Section CHKP.
+Variable B : Type.
+
+Lemma assoc_in : forall (t : fs B) q n, assoc B t q = Some n -> In (q, n) t.
+Proof.
+  induction t as [|[q' n'] t IH]; intros q n H; simpl in H; [discriminate|].
+  destruct (path_eqb q' q) eqn:E.
+  - apply path_eqb_eq in E. inversion H; subst. left. reflexivity.
+  - right. exact (IH q n H).
+Qed.
+
+Lemma closedb_sound : forall t, closedb B t = true -> tree_closed B t.
+Proof.
+  intros t H p c Hl. unfold closedb in H. rewrite forallb_forall in H.
+  destruct (lookup B t (p ++ [c])) as [n|] eqn:El; [|contradiction].
+  assert (Ha : assoc B t (p ++ [c]) = Some n).
+  { unfold lookup in El. destruct (p ++ [c]) eqn:E; [destruct p; discriminate | exact El]. }
+  specialize (H _ (assoc_in _ _ _ Ha)). simpl in H.
+  destruct (p ++ [c]) eqn:E; [destruct p; discriminate|]. rewrite <- E in H. rewrite removelast_snoc in H.
+  destruct (lookup B t p) as [[b|]|]; try discriminate. reflexivity.
+Qed.
+
+Lemma goodb_sound : forall ds t, goodb B ds t = true -> good B ds t.
+Proof.
+  intros ds t H. unfold goodb in H. apply andb_true_iff in H. destruct H as [H1 H2].
+  split; [apply closedb_sound; exact H1|]. rewrite forallb_forall in H2.
+  intros d Hd. specialize (H2 d Hd). apply andb_true_iff in H2. destruct H2 as [H2 H3]. split.
+  - intros q b [r Hr] Hq. rewrite forallb_forall in H2.
+    specialize (H2 (length q)). rewrite Hr in H2 at 2. rewrite firstn_app, firstn_all, Nat.sub_diag in H2.
+    simpl in H2. rewrite app_nil_r, Hq in H2.
+    assert (Hin : In (length q) (seq 0 (S (length (sd_dir d))))).
+    { apply in_seq. rewrite Hr, app_length. lia. }
+    specialize (H2 Hin). discriminate.
+  - intro E. rewrite E in H3. discriminate.
+Qed.
+
+Theorem close_hyps_sound : forall l t, close_hyps B l t = true ->
+  apart (map fst l) /\ NoDup (map fname l) /\ good B (map fst l) t.
+Proof.
+  intros l t H. unfold close_hyps in H. apply andb_true_iff in H. destruct H as [H H3].
+  apply andb_true_iff in H. destruct H as [H1 H2].
+  split; [apply apartb_sound; exact H1|]. split; [apply nodupb_sound; exact H2 | apply goodb_sound; exact H3].
+Qed.
+
+End CHKP.
+
+(* the retry theorem under the executable hypotheses *)
+Theorem close_retry_checked : forall (B : Type) (plain : list N -> B) (trunc : B -> B) l k e t,
+  close_hyps B l t = true ->
+  let '((r1, S1), t1) := run_fault B (plain []) trunc k e t (close_prog B plain l) in
+  exists t2, run B (plain []) t1 (close_prog B plain (retry_descs l S1)) = ((COk, clean l), t2) /\
+    forall x, In x l -> snd x = true -> whole B plain t2 x.
+Proof.
+  intros B plain trunc l k e t H. destruct (close_hyps_sound B l t H) as [H1 [H2 H3]].
+  exact (close_retry_fault B plain trunc l k e t H1 H2 H3).
+Qed.
